@@ -5,7 +5,7 @@ import operator
 
 from packaging.specifiers import InvalidSpecifier as PkgInvalidSpecifier
 from packaging.specifiers import Specifier, SpecifierSet
-from packaging.version import Version
+from packaging.version import InvalidVersion, Version
 
 from dep_logic.specifiers.arbitrary import ArbitrarySpecifier
 from dep_logic.specifiers.base import (
@@ -22,9 +22,14 @@ from dep_logic.specifiers.union import UnionSpecifier
 def from_specifierset(spec: SpecifierSet) -> VersionSpecifier:
     """Convert from a packaging.specifiers.SpecifierSet object."""
 
-    return functools.reduce(
-        operator.and_, map(_from_pkg_specifier, spec), RangeSpecifier()
-    )
+    try:
+        return functools.reduce(
+            operator.and_, map(_from_pkg_specifier, spec), RangeSpecifier()
+        )
+    except InvalidVersion as e:
+        # packaging's specifier grammar accepts a few operands that are not versions
+        # (`~=1.0.po\u017ft1`: case folding of a non-ASCII letter)
+        raise InvalidSpecifier(str(e)) from e
 
 
 def _release_version(epoch: int, release: tuple[int, ...]) -> Version:
